@@ -25,7 +25,7 @@ def run_rows(ctx, name, recs, texts_path, mode, excl="", violation=True, shards=
     log("rows %s: %d records, %.1fs (slowest shard %.1fs)" % (name, len(recs), time.time() - t0, max(r.wall for r in rs)))
     ctx.add_tlc(rs)
     stats = {}
-    rejects, cerr, lemmafail = [], [], []
+    rejects, cerr, lemmafail, treediff = [], [], [], []
     for r in rs:
         st = r.tagged("STATS")
         if len(st) != 1:
@@ -35,6 +35,7 @@ def run_rows(ctx, name, recs, texts_path, mode, excl="", violation=True, shards=
         rejects += r.tagged("REJECT")
         cerr += r.tagged("CERR")
         lemmafail += r.tagged("LEMMAFAIL")
+        treediff += r.tagged("TREEDIFF")
     stats["cells_per_pattern"] = stats["cells_per_pattern"] // shards
     if stats["records"] != len(recs):
         raise ToolError("TraceRows(%s): %d records validated, %d expected" % (name, stats["records"], len(recs)))
@@ -55,6 +56,10 @@ def run_rows(ctx, name, recs, texts_path, mode, excl="", violation=True, shards=
                           % (j["pat"], j["expected_not_logged"], j["logged_not_expected"]),
                           dict(kind="rows", space=name, mode=mode, texts=texts_path, ast=j["ast"], base=j.get("base"), ng=j["ng"], pat=j["pat"],
                                expected_not_logged=j["expected_not_logged"], logged_not_expected=j["logged_not_expected"]))
+    if violation:
+        for j in treediff:
+            ctx.violation("spelling %s (style %s) parses to a different expression tree than the plain spelling" % (j["pat"], j["style"]),
+                          dict(kind="tree", space=name, pat=j["pat"], style=j["style"]))
     # a few samples: pattern + number of matching cells, straight from the harness records
     try:
         with open("%s.0.ndjson" % prefix) as f:
@@ -65,7 +70,7 @@ def run_rows(ctx, name, recs, texts_path, mode, excl="", violation=True, shards=
                 ctx.samples.append(dict(space=name, pattern=r["pat"], status=r["st"], rows_logged=len(r["rows"]), first_rows=r["rows"][:3]))
     except OSError:
         pass
-    return dict(stats=stats, rejects=rejects, cerr=cerr, odd=odd)
+    return dict(stats=stats, rejects=rejects, cerr=cerr, odd=odd, treediff=treediff)
 
 
 def probe_witness(ctx, finding, w, mode):
@@ -74,7 +79,10 @@ def probe_witness(ctx, finding, w, mode):
     tpath = os.path.join(d, "witness.texts.ndjson")
     write_ndjson(tpath, [{"t": t} for t in w["texts"]])
     sub = type(ctx)(ctx.prop, ctx.tier, ctx.seed)
-    res = run_rows(sub, "witness", [{"id": 1, "ast": w["ast"], "ng": w["ng"]}], tpath, mode, excl="", violation=False, shards=1)
+    rec = {"id": 1, "ast": w["ast"], "ng": w["ng"]}
+    if "toks" in w:
+        rec.update(toks=w["toks"], base=w["ast"], sametree=False, style=0)
+    res = run_rows(sub, "witness", [rec], tpath, mode, excl="", violation=False, shards=1)
     ctx.states += sub.states
     ctx.transitions += sub.transitions
     return bool(res["rejects"]) or bool(res["odd"])
